@@ -151,7 +151,7 @@ fn main() {
             println!("replay of candidate-uncles sequence {id}");
             let viol = uncles::replay(sd, idx);
             for v in &viol {
-                println!("  still failing: {} {}", v["what"], v["detail"]);
+                println!("  still failing: {} {} [signature: {}]", v["what"], v["detail"], v.get("signature").map(|s| s.to_string()).unwrap_or("none".into()));
             }
             let _ = fs::remove_dir_all(&scratch);
             std::process::exit(if viol.is_empty() { 0 } else { 1 });
@@ -161,7 +161,7 @@ fn main() {
         let (_, viol, _, cfg) = run_history(sd, idx, mode_c12, steps);
         println!("replay of history {id}: config {cfg}");
         for v in &viol {
-            println!("  still failing: {} {}", v["what"], v["detail"]);
+            println!("  still failing: {} {} [signature: {}]", v["what"], v["detail"], v.get("signature").map(|s| s.to_string()).unwrap_or("none".into()));
         }
         if viol.is_empty() {
             println!("  no violation this time (the schedule of the pool's tasks is not controlled by the seed)");
